@@ -73,6 +73,22 @@ Proof.
 Qed.
 Print Assumptions C18_live_transaction_holds_the_store.
 
+(* ... and once it HAS ended, the mutex is somebody else's: whatever is still called on the ended transaction (Commit or
+   Abort a second time, Gets and Sets with any handlers), the mutex -- now perhaps held by the next transaction, whatever
+   [t_locked] says -- the store and the fatal-error flag stay as they are.  (A release that is not "exactly once" breaks this:
+   a late Commit of an aborted transaction then unlocks the store under the transaction that is open.) *)
+Theorem C18_ended_transaction_leaves_the_mutex_alone : forall t cs, t_released t = true -> t_done t = true ->
+  let t' := fst (trun MemTxn t cs) in
+  t_locked t' = t_locked t /\ t_store t' = t_store t /\ t_crashed t' = t_crashed t.
+Proof. exact ended_transaction_leaves_the_mutex_alone. Qed.
+Print Assumptions C18_ended_transaction_leaves_the_mutex_alone.
+
+(* Every way of ending (Commit, Abort, a handler that aborts) leads to that state. *)
+Theorem C18_every_ending_is_final : forall s0 cs, existsb ends cs = true ->
+  let t := fst (trun MemTxn (t_begin s0) cs) in t_crashed t = false -> t_released t = true /\ t_done t = true.
+Proof. exact ended_is_released_and_done. Qed.
+Print Assumptions C18_every_ending_is_final.
+
 (* Non-vacuity: Abort followed by Commit (the pattern of a handler-triggered abort) on a store with data. *)
 Example C18_nonvacuous :
   let cs := [TSet 1 (Some 7) HOk; TGet 1 HAbort; TSet 2 (Some 9) HOk; TAbort; TCommit false]%N in
